@@ -125,6 +125,10 @@ impl NodeDrive {
                     let record_size = write_value(&mut values_file, &value, ValueStatus::Ok);
 
                     if !reclame_space {
+                        // The in place update is not buffered: make the value durable before the
+                        // key record points at it, a crash in between would leave the key
+                        // pointing past the end of the values file
+                        values_file.flush().unwrap();
                         // In place upate in key file
                         update_key(
                             &mut keys_file_write,
@@ -182,9 +186,10 @@ impl NodeDrive {
             }
         }
 
+        // Values first: a key record must never reach the disk before the value it points to
+        values_file.flush().unwrap();
         keys_file.flush().unwrap();
         keys_file_write.flush().unwrap();
-        values_file.flush().unwrap();
 
         write_metadata_file(db_name, db);
         log::debug!("snapshoted {} keys", changed_keys);
